@@ -337,7 +337,7 @@ def c05_candidates(P, uni, nows=True):
         if start_h <= P.height:
             el = ts - P.anc(start_h).ts
             t2 = refmodel.new_target(ti, el).to_bytes(32, 'big')
-            if t2 != tgt:
+            if t2 != tgt and int.from_bytes(t2, 'big') * 64 > ti:      # (else the nonce search is infeasible)
                 _blk(P, [], 'retarget-inside-period', out, target=t2)
     if ti < refmodel.MAX256:
         _blk(P, [], 'target-plus-1', out, target=(ti + 1).to_bytes(32, 'big'))
